@@ -33,7 +33,7 @@ VARIANTS = ["with-abort", "with-normal", "explicit-double", "helper-abort-closed
 
 
 def floors(tier):
-    return {"aborts": 100, "C11.handle-leak": 200, "C11.completed-op-missing": 1000, "C11.after-close-access": 2000, "C11.reopen-restores": 150, "variant:helper-abort-closed": 15, "variant:helper-abort-readonly": 15, "variant:save-as": 10, "variant:concat:with-abort": 10, "variant:concat:helper-abort-closed": 10, "concat-op:data-flag": 20}
+    return {"aborts": 100, "C11.handle-leak": 200, "C11.completed-op-missing": 1000, "C11.after-close-access": 2000, "C11.reopen-restores": 150, "variant:helper-abort-closed": 15, "variant:helper-abort-readonly": 15, "variant:save-as": 10, "variant:concat:with-abort": 10, "variant:concat:helper-abort-closed": 10, "concat-op:data-flag": 12}
 
 
 def EXHAUSTIVE(tier):
